@@ -1,6 +1,132 @@
-// hooks for falcon (included into /repo/falcon-rust/src/falcon.rs as `mod verif` under
-// --cfg falcon_rust_verif).
+// hooks for falcon (included into /repo/falcon-rust/src/falcon.rs as `mod verif`).
+// Units U-SIG (Signature::{to_bytes,from_bytes}) and U-SKF (secret-key field codec).
 include!(concat!(env!("FALCON_RUST_VERIF_DIR"), "/hooks/common.rs"));
 
+/// Contract of Signature::<N>::from_bytes / to_bytes for one variant (C05, C06, C03):
+///   total;  Ok(sig) => sig.s.len() == TOTAL-41 and sig.to_bytes() == input (strict);
+///   Err     => the input is not the layout of any signature of this variant, i.e. it does not
+///              have length TOTAL with header 0b0101_LLLL (LLLL = log2 N);
+///   and for every signature object of this variant from_bytes(to_bytes(sig)) == Ok(sig).
+fn sig_from_bytes<const N: usize, const TOTAL: usize, D: crate::verif_api::Draw>(d: &mut D, hdr: u8) {
+    let arr: [u8; 1300] = d.array();
+    let len = d.usize();
+    vassume!(len <= 1300);
+    let b = &arr[..len];
+    match Signature::<N>::from_bytes(b) {
+        Ok(sig) => {
+            assert!(len == TOTAL, "C06.sig.len: accepted only at the variant's length");
+            assert!(sig.s.len() == TOTAL - 41, "C05.sig.inv: |s| == L_N");
+            let back = sig.to_bytes();
+            assert!(back.len() == len, "C06.sig.strict.len: re-encoding has the same length");
+            let i = d.usize();
+            vassume!(i < len);
+            assert!(back[i] == b[i], "C06.sig.strict: re-encoding reproduces the input");
+            vcover!(i == 0, "reach: header byte");
+            vcover!(i == 40, "reach: last salt byte");
+            vcover!(i == TOTAL - 1, "reach: last byte");
+        }
+        Err(_) => {
+            assert!(!(len == TOTAL && b[0] == hdr), "C05.sig.complete: canonical layout accepted");
+            vcover!(len == TOTAL, "reach: right length, bad header");
+            vcover!(len == 0, "reach: empty input");
+            vcover!(len == 1300, "reach: longest input");
+        }
+    }
+}
+
+fn sig_round_trip<const N: usize, const L: usize, D: crate::verif_api::Draw>(d: &mut D, hdr: u8) {
+    let r: [u8; 40] = d.array();
+    let s: [u8; L] = d.array();
+    let sig = Signature::<N> { r, s: s.to_vec() };
+    let bytes = sig.to_bytes();
+    assert!(bytes.len() == L + 41, "C05.sig.size: fixed encoded size");
+    assert!(bytes[0] == hdr, "C05.sig.header");
+    match Signature::<N>::from_bytes(&bytes) {
+        Ok(back) => {
+            assert!(back.r == sig.r, "C05.sig.roundtrip.salt");
+            assert!(back.s.len() == L, "C05.sig.roundtrip.len");
+            let i = d.usize();
+            vassume!(i < L);
+            assert!(back.s[i] == s[i], "C05.sig.roundtrip.body");
+            vcover!(i == L - 1, "reach: last body byte");
+        }
+        Err(_) => {
+            assert!(false, "C05.sig.roundtrip: from_bytes(to_bytes(sig)) is Ok");
+        }
+    }
+}
+
+const WIDTHS: [(usize, usize, usize); 4] = [(512, 0, 6), (1024, 0, 5), (512, 2, 8), (1024, 2, 8)];
+
 harnesses! {
+    fn sig512_from_bytes_contract(d) { sig_from_bytes::<512, 666, _>(d, 0x59) }
+    fn sig1024_from_bytes_contract(d) { sig_from_bytes::<1024, 1280, _>(d, 0x5a) }
+    fn sig512_round_trip(d) { sig_round_trip::<512, 625, _>(d, 0x59) }
+    fn sig1024_round_trip(d) { sig_round_trip::<1024, 1239, _>(d, 0x5a) }
+
+    /// the other variant's signature is rejected (covered by the contract above; stated apart)
+    fn sig_cross_variant_rejected(d) {
+        let a: [u8; 1280] = d.array();
+        assert!(Signature::<512>::from_bytes(&a).is_err(), "C06.sig.variant: 1280 bytes are not a 512 signature");
+        assert!(Signature::<1024>::from_bytes(&a[..666]).is_err(), "C06.sig.variant: 666 bytes are not a 1024 signature");
+    }
+
+    /// C05/C06 secret-key fields: widths, and encode/decode round trip on the encodable range
+    #[kani::unwind(10)]
+    fn skf_round_trip(d) {
+        let sel = d.usize();
+        vassume!(sel < 4);
+        let (n, pi, w_spec) = WIDTHS[sel];
+        let w = SecretKey::<512>::field_element_width(n, pi);
+        assert!(w == w_spec, "C05.skf.width: 6/5 bits for f,g and 8 for F");
+        assert!(SecretKey::<512>::field_element_width(n, 1) == SecretKey::<512>::field_element_width(n, 0), "C05.skf.width.g");
+        let v = d.i16();
+        let half = 1i16 << (w - 1);
+        vassume!(-half < v && v < half);
+        let e = Felt::new(v);
+        let bits = SecretKey::<512>::serialize_field_element(w, e);
+        assert!(bits.len() == w, "C05.skf.len");
+        // two's complement, most significant bit first
+        let j = d.usize();
+        vassume!(j < w);
+        assert!(bits[j] == (((v as u16) >> (w - 1 - j)) & 1 == 1), "C05.skf.layout: two's complement MSB first");
+        match SecretKey::<512>::deserialize_field_element(&bits) {
+            Ok(back) => assert!(back == e, "C05.skf.roundtrip"),
+            Err(_) => assert!(false, "C05.skf.roundtrip: encodable value decodes"),
+        }
+        vcover!(v == -half + 1, "reach: most negative encodable");
+        vcover!(v == half - 1, "reach: most positive encodable");
+        vcover!(sel == 3, "reach: last width row");
+    }
+
+    /// C06 secret-key fields: every bit pattern either is the reserved 10..0 (rejected) or
+    /// decodes to the value whose encoding is that pattern
+    #[kani::unwind(10)]
+    fn skf_strict(d) {
+        let sel = d.usize();
+        vassume!(sel < 3);
+        let w = WIDTHS[sel].2;
+        let pat = d.u16();
+        vassume!((pat as u32) < (1u32 << w));
+        let mut bits = BitVec::new();
+        let mut i = 0;
+        while i < w {
+            bits.push((pat >> (w - 1 - i)) & 1 == 1);
+            i += 1;
+        }
+        match SecretKey::<512>::deserialize_field_element(&bits) {
+            Err(_) => assert!(pat == 1u16 << (w - 1), "C06.skf.reject: only the reserved pattern is rejected"),
+            Ok(e) => {
+                assert!(pat != 1u16 << (w - 1), "C06.skf.reserved: -2^(w-1) is rejected");
+                // sign-extend the pattern
+                let v: i16 = if pat >> (w - 1) == 1 { (pat as i16) - (1i16 << w) } else { pat as i16 };
+                assert!(e == Felt::new(v), "C06.skf.value: two's complement value");
+                let back = SecretKey::<512>::serialize_field_element(w, e);
+                assert!(back == bits, "C06.skf.strict: re-encoding reproduces the bits");
+            }
+        }
+        vcover!(pat == 1u16 << (w - 1), "reach: reserved pattern");
+        vcover!(pat == 0, "reach: zero");
+        vcover!(sel == 2, "reach: width 8");
+    }
 }
